@@ -519,7 +519,12 @@ def run_request_level(spec, rec: Recorder):
     loop = asyncio.new_event_loop()
     asyncio.set_event_loop(loop)
 
-    def one(tamper_fn, label: str, wit: dict, use_async: bool) -> None:
+    # requests other than GetKey too: the sealing of the reply must not depend on what the request looked like
+    # (an empty stub, no verification trailer, ...); the reference DC answers those with a sealed fixed stub
+    cfg.other_op_reply = b"other-operation-reply-" + bytes(range(7))
+    REQUESTS = {"getkey": None, "empty": (b"", False), "empty+vt": (b"", True), "one-byte": (b"\x00", False), "sixteen": (bytes(16), False), "seventeen+vt": (bytes(17), True)}
+
+    def one(tamper_fn, label: str, wit: dict, use_async: bool, req: str = "getkey") -> None:
         sealed = {}
 
         def tamper(conn, out, info):
@@ -532,6 +537,11 @@ def run_request_level(spec, rec: Recorder):
         mem = fe.MemoryDC(core)
         auth = _auth.AuthenticationProvider(fe.NTLM_USER, fe.NTLM_PASS, "dc.verif.test", sec)
         stub_req = _gkdi.GetKey(sd1, rkid, 361, 1, 1).pack()
+        vt = cl._VERIFICATION_TRAILER
+        if REQUESTS[req] is not None:
+            stub_req, with_vt = REQUESTS[req]
+            vt = cl._VERIFICATION_TRAILER if with_vt else None
+            wit = dict(wit, request=req)
         try:
             if use_async:
                 reader, writer = mem.async_factory("dc", cfg.isd_port)
@@ -539,13 +549,13 @@ def run_request_level(spec, rec: Recorder):
 
                 async def go():
                     await c.bind(cl._ISD_KEY_CONTEXTS)
-                    return await c.request(0, 0, stub_req, verification_trailer=cl._VERIFICATION_TRAILER)
+                    return await c.request(0, 0, stub_req, verification_trailer=vt)
 
                 resp = loop.run_until_complete(asyncio.wait_for(go(), 30))
             else:
                 c = rc.SyncRpcClient(mem.sync_factory("dc", cfg.isd_port), auth)
                 c.bind(cl._ISD_KEY_CONTEXTS)
-                resp = c.request(0, 0, stub_req, verification_trailer=cl._VERIFICATION_TRAILER)
+                resp = c.request(0, 0, stub_req, verification_trailer=vt)
             res = ("ok", resp)
         except asyncio.TimeoutError:
             rec.inconclusive_because("watchdog: request-level async call exceeded 30s")
@@ -563,9 +573,11 @@ def run_request_level(spec, rec: Recorder):
         want = sealed.get("stub", b"")
         got = resp.stub_data
         pad = resp.sec_trailer.pad_length if resp.sec_trailer else 0
-        if got[: len(want)] != want or len(got) - len(want) > 255 or (sealed.get("changed") and label != "control"):
+        if label == "control" and req != "getkey" and (got[: len(want)] != want or len(got) - len(want) > 255):
+            rec.violation("reply-not-unsealed", f"request() with a {req} stub returned {len(got)} bytes that are not the plaintext the DC sealed ({sec}, {'async' if use_async else 'sync'})", wit)
+        elif got[: len(want)] != want or len(got) - len(want) > 255 or (sealed.get("changed") and label != "control"):
             mech = "cleartext-reply-accepted" if label.startswith("strip") else "altered-reply-accepted"
-            rec.violation(mech, f"request() returned without raising after {label} ({sec}, {'async' if use_async else 'sync'}); stub equals what was sealed: {got[: len(want)] == want}", wit)
+            rec.violation(mech, f"request() [{req} stub] returned without raising after {label} ({sec}, {'async' if use_async else 'sync'}); stub equals what was sealed: {got[: len(want)] == want}", wit)
         else:
             rec.count("benign_or_rejected")
 
@@ -577,6 +589,17 @@ def run_request_level(spec, rec: Recorder):
             return
         rec.count("baseline_ok")
         i = 0
+        for req in REQUESTS:
+            if req == "getkey":
+                continue
+            for use_async in (False, True):
+                one(lambda out: out, "control", {"class": "control"}, use_async, req)
+                for field, val in rewrite_cases():
+                    if field.startswith("strip") or field in ("auth_len", "pad_length"):
+                        one(lambda out, f=field, v=val: apply_rewrite(out, f, v), f"{'strip' if field.startswith('strip') else 'rewrite'} {field}={val}", {"class": "request-level", "field": field, "value": val, "async": use_async, "security": sec}, use_async, req)
+                        rec.count("other_request_cases")
+                one(lambda out: mutate_flip(out, 8 * 30 + 1), "bit flip in body", {"class": "request-level", "bit": 241, "security": sec}, use_async, req)
+                rec.case(("rl-other", req, use_async, sec))
         for field, val in rewrite_cases():
             for use_async in (False, True):
                 one(lambda out, f=field, v=val: apply_rewrite(out, f, v), f"{'strip' if field.startswith('strip') else 'rewrite'} {field}={val}", {"class": "request-level", "field": field, "value": val, "async": use_async, "security": sec}, use_async)
